@@ -79,7 +79,16 @@ def run (ctx):
     ctx.ob('R-CONTAIN', cyc, "a failing blocking operation is caught by the scheduler", bool(ca) and not g.raises_out(n), "catch-all around rv.execute()", (mod, n.ast), 'D2')
     for h in ca:
       r = g.reachable(h, exc=False)
-      ctx.ob('R-EFFECT', cyc, "after a failing blocking operation the task is dropped", not [x for x in requeue + tex if x in r], "no re-queue / re-run", (mod, h.ast), 'D2')
+      if [x for x in requeue + tex if x in r]:
+        # plain reachability says the task may run again: decide with constant propagation (flags such as
+        # `keep_running = False` end the loop although the syntax allows another iteration)
+        r = set()
+        for t0 in tex:
+          for path, fe in q.paths_under(repo, mod, g, q.Env({}), t0, [g.exit, g.raise_exit, t0], sch, limit=400):
+            if h in path: r.update(path[path.index(h) + 1:])
+      bad_ = [x for x in requeue + tex if x in r]
+      ctx.ob('R-EFFECT', cyc, "after a failing blocking operation the task is dropped", not bad_, "no re-queue / re-run" if not bad_ else
+             "after the handler, `%s` is reachable: a task whose blocking operation failed is scheduled again" % bad_[0].text(40), (mod, h.ast), 'D2')
   # ---- D1 arms ----------------------------------------------------------------------------------
   is_bo = lambda e: isinstance(e, ast.Call) and call_name(e) == 'isinstance' and 'BlockingOperation' in norm(e)
   ARMS = [("a blocking operation", {'rv': '<op>'}, [(is_bo, True)], 'op'), ("False (unschedule)", {'rv': False}, [(is_bo, False)], 'none'),
@@ -103,11 +112,18 @@ def run (ctx):
       iv = g.interval(lambda n: n in app, start=start)
       ctx.ob('R-EFFECT', cyc, "a task yielding 0 is queued exactly once", iv is not None and iv[1] <= 1, "append count %s" % (iv,), cyc, 'D1')
   ctx.floor('cycle arms decided', n_arm, 5)
-  for n in rex:
-    # `continue` (run the same task again at once) only when the operation returned True
-    conts = [c for c in g.nodes if c.kind == 'continue' and c in g.reachable(n)]
-    good = bool(conts) and all(any('is True' in f for f in q.fact_strs(g, c)) for c in conts)
-    ctx.ob('R-DOM', cyc, "the task keeps running only when the operation reclaimed the running state (returned True)", good, "continue under `... is True`" if good else "continue not guarded", cyc, 'D1')
+  # the same task is run again at once only when the operation returned True: decided by propagating each possible
+  # result of rv.execute() through the paths that lead back to t.execute()
+  if tex and rex:
+    again = {}
+    for val in (True, False, None, 2):
+      def hook (call, env=None, val=val):
+        return (True, val) if (call_name(call) == 'execute' and norm(call.func.value) == 'rv') else (False, None)
+      ps = q.paths_under(repo, mod, g, q.Env({'rv': '<op>'}, [(is_bo, True)], hook), tex[0], [g.exit, g.raise_exit, tex[0]], sch, limit=400)
+      again[val] = any(p_[-1] is tex[0] and any(x in rex for x in p_) for p_, e_ in ps)
+    good = again[True] and not again[False] and not again[None] and not again[2]
+    ctx.ob('R-DOM', cyc, "the task keeps running only when the operation reclaimed the running state (returned True)", good,
+           "t.execute() is reached again iff rv.execute() returned True" if good else "re-run of the task by operation result: %s (expected only for True)" % again, cyc, 'D1')
   # ---- D3 resume table -------------------------------------------------------------------------
   subs = [bo] + repo.subclasses(bo)
   n_ops = 0
@@ -162,6 +178,22 @@ def run (ctx):
   exp = [n for n in g2.nodes if n.kind == 'cond' and 'tto' in norm(n.ast) and 'now' in norm(n.ast) and 'tto - now' not in norm(n.ast)]
   good = bool(exp) and all(norm(n.ast) in ('tto <= now', 'now >= tto') for n in exp)
   ctx.ob('R-AGREE', sel, "a timed wait counts as expired only when its deadline is not in the future", good, norm(exp[0].ast) if exp else "no expiry test", sel, 'D4')
+  # a waiter found expired is resumed as expired and nothing else: its descriptors must not reach select() in the same pass
+  # (otherwise it is returned twice and the second `del tasks[t]` raises)
+  expn = [n for n in g2.nodes if any(call_name(c) == 'append' and 'expired' in norm(c.func.value) for c in q.node_calls(n))]
+  regs = [n for n in g2.nodes if n.kind == 'stmt' and isinstance(n.ast, ast.Assign) and isinstance(n.ast.targets[0], ast.Subscript) and isinstance(n.ast.targets[0].value, ast.Name)
+          and n.ast.targets[0].value.id in ('rl', 'wl', 'xl')]
+  ctx.floor('hub: expiry collection site', len(expn), 1); ctx.floor('hub: descriptor registration sites', len(regs), 3)
+  for (st_, h_, af_) in g2.loop_nodes:
+    body = g2.loop_body_nodes(h_)
+    for e_ in expn:
+      if e_ not in body or not (isinstance(st_, ast.For) and 'tasks' in norm(st_.iter)): continue
+      after = g2.reachable(e_, avoid=[h_], exc=False)
+      both = [r_ for r_ in regs if r_ in body and (r_ in after or e_ in g2.reachable(r_, avoid=[h_], exc=False))]
+      ctx.ob('R-EFFECT', sel, "an expired waiter's descriptors are not also handed to select()", not both,
+             "expiry and descriptor registration exclude each other within one scan step" if not both else
+             "within one step of the scan both `%s` and `%s` can run for the same task: it is resumed as expired and, if a descriptor is ready, returned a second time (del tasks[t] then raises KeyError and the hub dies)" % (e_.text(30), both[0].text(30)),
+             (mod, e_.ast), 'D4')
   # timeout dispatch only for an unmodified empty select result
   selcall = [n for n in g2.nodes if isinstance(n.ast, ast.Assign) and isinstance(n.ast.value, ast.Call) and '_select_func' in norm(n.ast.value.func)]
   if selcall:
@@ -194,6 +226,20 @@ def run (ctx):
     ctx.ob('R-DOM', rsel, "relative timeouts are converted to absolute deadlines exactly when they are relative", 'timeIsAbsolute:falsy' in fs and any(f.startswith('timeout !=') or f.startswith('timeout is not') for f in fs) and 'time.time()' in norm(rel[0].value), norm(rel[0]), rsel, 'D4')
   # ---- D5 Timer ------------------------------------------------------------------------------------------
   tm = repo.cls(RC, 'Timer'); tr = q.find_method(repo, tm, 'run', 'C06'); ctx.analysed(tr)
+  # a relative timer is anchored to the moment it is started, not constructed
+  ti = tm.methods.get('__init__'); ts = tm.methods.get('start')
+  if ti is not None and ts is not None:
+    ctx.analysed(ts)
+    for t, v, st, k in q.stores_in(ti.node):
+      if isinstance(t, ast.Attribute) and t.attr == '_next' and v is not None:
+        good = 'time.time()' not in norm(v)
+        ctx.ob('R-AGREE', ti, "the wake-up time of a relative timer is not fixed at construction", good, norm(st) if good else
+               "`%s` reads the clock in the constructor: a timer created with started=False and started later fires early by the time that passed in between" % norm(st), (mod, st), 'D5')
+    gs = q.cfg_of(ts)
+    anch = [st for t, v, st, k in q.stores_in(ts.node) if isinstance(t, ast.Attribute) and t.attr == '_next' and v is not None and 'time.time()' in norm(st)]
+    good = bool(anch) and any('self._absolute_time:falsy' in q.fact_strs(gs, q.enclosing_stmt_node(gs, a_)) for a_ in anch)
+    ctx.ob('R-AGREE', ts, "start() turns a relative delay into a deadline (now + delay) unless the time is absolute", good,
+           norm(anch[0]) if good else "start() no longer adds the current time to a relative delay", ts, 'D5')
   g3 = q.cfg_of(tr)
   cbn = g3.nodes_with_call(lambda c: norm(c.func) == 'self._callback')
   ylds = [n for n in g3.nodes if n.ast is not None and any(isinstance(x, ast.Yield) and isinstance(x.value, ast.Call) and call_name(x.value) == 'Sleep' for x in ast.walk(n.ast))]
